@@ -1,0 +1,62 @@
+//go:build verif
+
+// Contracts checked by /verif/govc (comment-only file; see /verif/DESIGN.md, property C34).
+// Directory entries are modelled by the uninterpreted attributes of /verif/contracts/external/hash.go.spec
+// (isDirU, nameU, infoU, infoOKU); conf.ClassKind and conf.Filter are pure uninterpreted function values.
+package parser
+
+//@ # ---- the per-entry decision, written from the property statement ----
+//@ spec ckProj(conf Config, n string) bool := applyfn(conf.ClassKind, 0, n)
+//@ spec ckOK(conf Config, n string) bool := applyfn(conf.ClassKind, 1, n)
+//@ spec isSrcExt(e string) bool := e == ".xgo" || e == ".gop" || e == ".go"
+//@ spec knownS(conf Config, n string) bool := pathExtU(n) == ".xgo" || pathExtU(n) == ".gop" ||
+//@        (pathExtU(n) == ".go" && !hasPrefixU(n, "gop_autogen")) || pathExtU(n) == ".gox" || (!isSrcExt(pathExtU(n)) && ckOK(conf, n))
+//@ spec filterS(d fs.DirEntry, conf Config) bool := conf.Filter == nil || (infoOKU(d) && applyfn(conf.Filter, 0, infoU(d)))
+//@ spec includedS(d fs.DirEntry, conf Config) bool := !isDirU(d) && knownS(conf, nameU(d)) && !hasPrefixU(nameU(d), "_") && filterS(d, conf)
+//@ spec isClassS(conf Config, n string) bool := !isSrcExt(pathExtU(n)) && (ckOK(conf, n) || pathExtU(n) == ".gox")
+//@ spec isProjS(conf Config, n string) bool := !isSrcExt(pathExtU(n)) && ckProj(conf, n)
+//@ spec isNormalGoxS(conf Config, n string) bool := pathExtU(n) == ".gox" && !ckOK(conf, n)
+//@ spec useGoS(conf Config, n string) bool := pathExtU(n) == ".go" && conf.Mode & ParseGoAsGoPlus == 0
+//@
+//@ # what was done with the current directory entry: 0 nothing, 1 parsed by the XGo parser, 2 handed to the Go parser
+//@ ghost parsed int
+//@
+//@ # the parser proper is out of reach (C13): ASSUMED to return nil or a fresh file
+//@ trusted ParseFSFile
+//@   assigns nothing
+//@   ensures f == nil || fresh(f)
+//@
+//@ func defaultClassKind
+//@   pure
+//@   ensures [spx] pathExtU(fname) == ".spx" ==> ok && isProj == (fname == "main.spx")
+//@   ensures [gsh-gmx] pathExtU(fname) == ".gsh" || pathExtU(fname) == ".gmx" ==> ok && isProj
+//@   ensures [other] pathExtU(fname) != ".spx" && pathExtU(fname) != ".gsh" && pathExtU(fname) != ".gmx" ==> !ok && !isProj
+//@
+//@ func ParseFSDir
+//@   option pure_funcs yes
+//@   requires fs != nil
+//@   at loophead 1 set parsed = 0
+//@   at call ParseFSFile#1 assert [xgo-parser-only-for-included] includedS(d, conf) && !useGoS(conf, fname)
+//@   at call ParseFSFile#1 assert [class-mode] (isClassS(conf, fname) ==> mode & ParseGoPlusClass != 0) &&
+//@            (!isClassS(conf, fname) ==> (mode & ParseGoPlusClass) == (conf.Mode & ParseGoPlusClass))
+//@   at call ParseFSFile#1 set parsed = 1
+//@   at call ReadFile#1 assert [go-parser-only-for-included] includedS(d, conf) && useGoS(conf, fname)
+//@   at call ReadFile#1 set parsed = 2
+//@   at fieldstore IsNormalGox#1 assert [marks] f.IsProj == isProjS(conf, fname) && f.IsClass == isClassS(conf, fname) && f.IsNormalGox == isNormalGoxS(conf, fname)
+//@   at backedge 1 assert [exactly-the-included] (parsed != 0) == includedS(d, conf)
+//@ loop ParseFSDir#1
+//@   invariant fs != nil && pkgs != nil && conf.ClassKind != nil
+//@   invariant forall w string :: has(pkgs, w) ==> pkgs[w] != nil && pkgs[w].Files != nil
+//@
+//@ func ParseFSEntry
+//@   option pure_funcs yes
+//@   requires fs != nil
+//@   at call ParseFSFile#1 assert [known-kind] isSrcExt(pathExtU(fname)) || pathExtU(fname) == ".gox" || ckOK(conf, fname)
+//@   at call ParseFSFile#1 assert [class-mode] (isClassS(conf, fname) ==> mode & ParseGoPlusClass != 0) &&
+//@            (!isClassS(conf, fname) ==> (mode & ParseGoPlusClass) == (conf.Mode & ParseGoPlusClass))
+//@   at call ParseFSFile#1 set parsed = 1
+//@   at fieldstore IsNormalGox#1 assert [marks] f.IsProj == isProjS(conf, fname) && f.IsClass == isClassS(conf, fname) && f.IsNormalGox == isNormalGoxS(conf, fname)
+//@   at entry set parsed = 0
+//@   at return assert [unknown-kind-rejected] parsed == 0 ==> err == ErrUnknownFileKind && f == nil
+//@
+//@ ginv errUnknownFileKindNonNil := ErrUnknownFileKind != nil
